@@ -852,6 +852,11 @@ def run(tier, seed, replay=None):
     chk.coverage["differential_runs"] = n_runs
     chk.assumptions += [
         "PARTIAL: equality of whole commands across working directories is differential testing of the implementation against itself; the theorems cover root discovery and path rendering only",
-        "the working directory is not reached through a symbolic link (os.getcwd() returns the physical path; lexical '..' = parent)",
+        "the working directory is not reached through a symbolic link (os.getcwd() returns the physical path; lexical '..' = parent): from inside a cond-out that is a symlink "
+        "to another disk, or a project sub-directory that is a symlink to the outside, the root is not found; a working directory that was deleted makes os.getcwd() raise",
+        "no directory between the invocation directory and the project root holds a cond_config.toml of its own (then THAT directory is the nearest root: C17_root's hypothesis)",
+        "COND files are pure declarations: a COND file is executed with the process's working directory (and sys.path[0] under `python -m`) being the invocation directory, "
+        "so Python in a COND file that reads os.getcwd(), lists '.', or imports a module beside itself behaves differently from different directories; the generated "
+        "COND files contain constructor calls only",
     ]
     return chk.finish()
